@@ -1289,15 +1289,10 @@ pub fn unify(
                     )
                     .is_ok()
                     {
-                        // Merge the bindings
-                        for (k, v) in temp_bindings {
-                            if let Some(&existing) = bindings.get(&k)
-                                && !quiver_core::types::is_compatible(v, existing, program)
-                            {
-                                continue; // Skip incompatible binding
-                            }
-                            bindings.insert(k, v);
-                        }
+                        // Adopt the bindings: `temp_bindings` started from `bindings` and holds
+                        // whatever widening this variant required (e.g. 't bound to 'int by an
+                        // earlier variant and to 'int | 'bin now), which must not be dropped.
+                        *bindings = temp_bindings;
                         found_match = true;
                         break;
                     }
